@@ -409,7 +409,10 @@ for _cid in PROPS:
 # so a change inside one of them is noticed by every property that leans on it (pyvc/cli.py refuses a plan whose
 # call-site hypotheses are not closed under this relation).
 DEPS = {
-    'C02': ['Core.Environment.__init__'],
+    # collectors are systems: their constructors must hand the declared window on to System.__init__
+    # ... and "exactly once" must survive systems that edit the system set mid-timestep (the general user-code view)
+    'C02': ['Core.Environment.__init__', 'Collectors.Collector.__init__', 'Collectors.AgentCollector.__init__',
+            'Collectors.FileCollector.__init__', 'Core.SystemManager.execute_systems#dynamic'],
     'C06': ['Core.Environment.__init__', 'Core.SystemManager.__init__'],
     'C07': ['Core.Environment.__init__', 'Core.SystemManager.__init__', 'Core.Agent.has_component',
             'Core.Environment.get_agents'],
